@@ -97,8 +97,10 @@ CLAIMS = {
           "let the writer die at ANY byte of the action stream of the next write (inside a roll-over's removals/creations, inside the 16 bytes of an index entry, inside a line): the "
           "time-range search on what is on disk does not fail and returns exactly the held items of the window - what was held before plus the items of the interrupted call whose lines are "
           "complete, minus whole files removed by retention - followed by at most one more item, the torn line misread (crash_in_write: every such prefix is a well-formed crash-shaped "
-          "directory; search_range_crash: the search on any such directory). PARTIAL: searches through a cached position (long-lived searcher), the line-limited search on crash states and "
-          "a crash during the creation of the writer are not theorems; they are decided by the tie. Tie: the real DefaultMetricLogWriter / DefaultMetricSearcher (feature metric_log) run under strace; the observed system-call stream (creates, appended bytes, removals "
+          "directory; search_range_crash: the search on any such directory). long_lived_searcher: for any interleaving of writes with searches of both kinds through ONE searcher (its cached "
+          "position updated by every search) each search returns exactly what a fresh searcher returns on the directory of that moment (CacheInv is established by every search - "
+          "cached_search_eq_fresh - and kept by every write). PARTIAL: the line-limited search on crash states, a crash during the creation of the writer and n = 0 are not theorems; they "
+          "are decided by the tie. Tie: the real DefaultMetricLogWriter / DefaultMetricSearcher (feature metric_log) run under strace; the observed system-call stream (creates, appended bytes, removals "
           "per operation) must equal the model's action list; searches on the live directory (long-lived and fresh searchers) and on crash states materialised from prefixes of the observed "
           "stream (event boundaries, every byte of index entries, bytes of lines incl. inside a multi-byte character) must equal the model's answers; the Spec is evaluated on the "
           "implementation's answers: range search = held items of the window; line-limited search = the first lines (at least n, whole seconds); retention keeps the newest max-file-count "
